@@ -12,53 +12,86 @@
 (*   "eager"   built before any goroutine starts; only read afterwards     *)
 (*   "racy"    check, then build, then publish with no synchronisation     *)
 (*             (what an unprotected lazily filled map does)                *)
+(*   "lru"     a cell whose LOOK-UP writes (the plan cache: a hit moves    *)
+(*             the entry to the front of the LRU list); every step under   *)
+(*             the exclusive lock, like "locked", but the hit is logged as *)
+(*             the write it is                                             *)
+(*   "rwlru"   the same cell behind a reader/writer lock with look-ups     *)
+(*             under the SHARED lock ("look-ups vastly outnumber stores"): *)
+(*             a miss drops the shared lock and publishes under the        *)
+(*             exclusive one, but hits - which write - overlap             *)
 (*                                                                         *)
-(* Every access is logged as [g, c, rw, locked].  With mutexes as the only *)
-(* synchronisation between request goroutines, two accesses to one cell by *)
-(* different goroutines, one of them a write, are ordered by               *)
-(* happens-before iff both were made holding the cell's mutex: NoRace.     *)
-(* TLC proves NoRace / AtMostOneBuilder / ReadersSeePublished for the      *)
-(* "locked" and "eager" protocols and finds the race for "racy".           *)
+(* Every access is logged as [g, c, rw, lk], lk \in {"x","s","n"}: made    *)
+(* holding the cell's lock exclusively, shared, or not at all.  With locks *)
+(* as the only synchronisation between request goroutines, two accesses to *)
+(* one cell by different goroutines, one of them a write, are ordered by   *)
+(* happens-before iff both held the lock and at least one of them held it  *)
+(* exclusively: NoRace.  TLC proves NoRace / AtMostOneBuilder for the      *)
+(* "locked", "eager" and "lru" protocols and finds the race for "racy" and *)
+(* for "rwlru".                                                            *)
 (***************************************************************************)
 EXTENDS Naturals, Sequences, FiniteSets, TLC
 
-CONSTANTS Procs, Cells, Protocol      \* Protocol \in [Cells -> {"locked","eager","racy"}]
+CONSTANTS Procs, Cells, Protocol      \* Protocol \in [Cells -> {"locked","eager","racy","lru","rwlru"}]
 
 VARIABLES built,     \* Cells -> BOOLEAN : the published state
-          holder,    \* Cells -> Procs \cup {"none"} : mutex owner
+          holder,    \* Cells -> Procs \cup {"none"} : exclusive owner of the cell's lock
+          readers,   \* Cells -> SUBSET Procs : holders of the shared side of a reader/writer lock
           pc,        \* Procs -> [c, at] : which cell, which step ("idle","in","checked","building")
           todo,      \* Procs -> sequence of cells still to touch
           log        \* sequence of accesses [g, c, rw, locked]
-vars == <<built, holder, pc, todo, log>>
+vars == <<built, holder, readers, pc, todo, log>>
 
 Idle == [c |-> "none", at |-> "idle"]
 
 Init ==
   /\ built = [c \in Cells |-> Protocol[c] = "eager"]
   /\ holder = [c \in Cells |-> "none"]
+  /\ readers = [c \in Cells |-> {}]
   /\ pc = [g \in Procs |-> Idle]
   /\ todo \in [Procs -> { s \in UNION { [1..n -> Cells] : n \in 1..2 } : TRUE }]
   /\ log = <<>>
 
-Acc(g, c, rw) == [g |-> g, c |-> c, rw |-> rw, locked |-> holder[c] = g]
+Acc(g, c, rw) == [g |-> g, c |-> c, rw |-> rw,
+                  lk |-> IF holder[c] = g THEN "x" ELSE IF g \in readers[c] THEN "s" ELSE "n"]
+Exclusive(c) == Protocol[c] \in {"locked", "lru"}
 
 Begin(g) ==
   /\ pc[g].at = "idle" /\ todo[g] # <<>>
   /\ LET c == Head(todo[g]) IN
      /\ todo' = [todo EXCEPT ![g] = Tail(@)]
-     /\ IF Protocol[c] = "locked"
-        THEN /\ holder[c] = "none"                      \* Lock()
+     /\ IF Exclusive(c)
+        THEN /\ holder[c] = "none" /\ readers[c] = {}  \* Lock()
              /\ holder' = [holder EXCEPT ![c] = g]
-        ELSE UNCHANGED holder
+             /\ UNCHANGED readers
+        ELSE IF Protocol[c] = "rwlru"
+        THEN /\ holder[c] = "none"                      \* RLock()
+             /\ readers' = [readers EXCEPT ![c] = @ \cup {g}]
+             /\ UNCHANGED holder
+        ELSE UNCHANGED <<holder, readers>>
      /\ pc' = [pc EXCEPT ![g] = [c |-> c, at |-> "in"]]
   /\ UNCHANGED <<built, log>>
 
 Check(g) ==
   /\ pc[g].at = "in"
   /\ LET c == pc[g].c IN
-     /\ log' = Append(log, Acc(g, c, "rd"))
-     /\ pc' = [pc EXCEPT ![g].at = IF built[c] THEN "done" ELSE "building"]
-  /\ UNCHANGED <<built, holder, todo>>
+     \* the look-up of an LRU that hits moves the entry to the front: a write
+     /\ log' = Append(log, Acc(g, c, IF built[c] /\ Protocol[c] \in {"lru", "rwlru"} THEN "wr" ELSE "rd"))
+     /\ pc' = [pc EXCEPT ![g].at = IF built[c] THEN "done" ELSE IF Protocol[c] = "rwlru" THEN "upgrade" ELSE "building"]
+  /\ UNCHANGED <<built, holder, readers, todo>>
+
+\* "rwlru" miss: RUnlock(), then Lock() for the store
+Upgrade(g) ==
+  /\ pc[g].at = "upgrade"
+  /\ LET c == pc[g].c IN
+     IF g \in readers[c]
+     THEN /\ readers' = [readers EXCEPT ![c] = @ \ {g}]
+          /\ UNCHANGED <<holder, pc>>
+     ELSE /\ holder[c] = "none" /\ readers[c] = {}
+          /\ holder' = [holder EXCEPT ![c] = g]
+          /\ pc' = [pc EXCEPT ![g].at = "building"]
+          /\ UNCHANGED readers
+  /\ UNCHANGED <<built, todo, log>>
 
 Publish(g) ==
   /\ pc[g].at = "building"
@@ -66,21 +99,25 @@ Publish(g) ==
      /\ built' = [built EXCEPT ![c] = TRUE]
      /\ log' = Append(log, Acc(g, c, "wr"))
      /\ pc' = [pc EXCEPT ![g].at = "done"]
-  /\ UNCHANGED <<holder, todo>>
+  /\ UNCHANGED <<holder, readers, todo>>
 
 Finish(g) ==
   /\ pc[g].at = "done"
   /\ LET c == pc[g].c IN
-     holder' = IF holder[c] = g THEN [holder EXCEPT ![c] = "none"] ELSE holder   \* Unlock()
+     /\ holder' = IF holder[c] = g THEN [holder EXCEPT ![c] = "none"] ELSE holder   \* Unlock()
+     /\ readers' = [readers EXCEPT ![c] = @ \ {g}]                                 \* RUnlock()
   /\ pc' = [pc EXCEPT ![g] = Idle]
   /\ UNCHANGED <<built, todo, log>>
 
-Next == \E g \in Procs : Begin(g) \/ Check(g) \/ Publish(g) \/ Finish(g)
+Next == \E g \in Procs : Begin(g) \/ Check(g) \/ Upgrade(g) \/ Publish(g) \/ Finish(g)
 Spec == Init /\ [][Next]_vars /\ WF_vars(Next)
 
 \* ---------------------------------------------------------------- properties
 Conflict(a, b) == a.c = b.c /\ a.g # b.g /\ (a.rw = "wr" \/ b.rw = "wr")
-NoRace == \A i, j \in 1..Len(log) : (i < j /\ Conflict(log[i], log[j])) => (log[i].locked /\ log[j].locked)
-AtMostOneBuilder == \A i, j \in 1..Len(log) : (log[i].rw = "wr" /\ log[j].rw = "wr" /\ log[i].c = log[j].c) => i = j
+Ordered(a, b) == (a.lk = "x" /\ b.lk # "n") \/ (b.lk = "x" /\ a.lk # "n")
+NoRace == \A i, j \in 1..Len(log) : (i < j /\ Conflict(log[i], log[j])) => Ordered(log[i], log[j])
+\* a lazily filled cell is built once (the touches of an LRU are not builds)
+AtMostOneBuilder == \A c \in Cells : Protocol[c] \notin {"lru", "rwlru"} =>
+  \A i, j \in 1..Len(log) : (log[i].rw = "wr" /\ log[j].rw = "wr" /\ log[i].c = c /\ log[j].c = c) => i = j
 NoDeadlock == <>(\A g \in Procs : pc[g].at = "idle" /\ todo[g] = <<>>)
 =============================================================================
